@@ -95,6 +95,12 @@ def check_roundtrip(sh, fa, case, parsed, prop="C01"):
 
 
 def read_one(fa, stream, schema_arg):
+    # valid text decodes the same under every handling of undecodable text
+    k = getattr(stream, "_vf_k", 0)
+    if k % 5 == 3:
+        return fa.schemaless_reader(stream, schema_arg, handle_unicode_errors="replace")
+    if k % 5 == 4:
+        return fa.schemaless_reader(stream, schema_arg, handle_unicode_errors="ignore")
     return fa.schemaless_reader(stream, schema_arg)
 
 
@@ -107,6 +113,7 @@ def one_case(sh, fa, case, parsed):
     if tree[2] is None:
         tree = None
     stream = ReadOnlyStream(data + SENTINEL)
+    stream._vf_k = len(data)
     st, got = guard(read_one, fa, stream, schema_arg)
     info = {"schema": js, "datum": datum, "parsed": parsed, "dtn": bool(case.get("dtn"))}
     if st == "exc":
